@@ -223,7 +223,9 @@ func sortDedup(xs []string) []string {
 }
 
 // opE2EModel emits the `e2e` line for one scenario.
-func opE2EModel(r *hx.Run, sc *scenario, idx, fl indexResult, digests []string, flat layerFS) {
+// It reports whether the history is inside the hypothesis Tame of
+// index_eq_flatten_partial (false when the abstraction does not apply).
+func opE2EModel(r *hx.Run, sc *scenario, idx, fl indexResult, digests []string, flat layerFS) bool {
 	cids := map[string]string{}
 	cid := func(b []byte) string {
 		k := string(b)
@@ -320,7 +322,7 @@ func opE2EModel(r *hx.Run, sc *scenario, idx, fl indexResult, digests []string, 
 	check(flatAbs, flatPkgs)
 	if !consistent {
 		r.Count("e2e:model-line-skipped:scanner-depends-on-layer-context")
-		return
+		return false
 	}
 
 	// the line
@@ -365,7 +367,7 @@ func opE2EModel(r *hx.Run, sc *scenario, idx, fl indexResult, digests []string, 
 	op := "e2e " + strings.Join(s.dbs, ",") + " " + table + " " + strings.Join(ls, "|")
 	if strings.ContainsAny(table+strings.Join(ls, ""), " \t") {
 		r.Count("e2e:model-line-skipped:blank-in-field")
-		return
+		return false
 	}
 
 	// the implementation's answer
@@ -382,11 +384,8 @@ func opE2EModel(r *hx.Run, sc *scenario, idx, fl indexResult, digests []string, 
 	ans := fmt.Sprintf("tame=%v idx=%s img=%s", tame, strings.Join(sortDedup(ip), ","), strings.Join(sortDedup(mp), ","))
 	r.Op(op, ans, len(layers) > 1)
 	r.Count(fmt.Sprintf("e2e:model-line:tame=%v", tame))
-	// the theorem, observed: a Tame history must show no difference
-	if tame && strings.Join(sortDedup(ip), ",") != strings.Join(sortDedup(mp), ",") {
-		r.Fail("", "a history inside the hypothesis Tame of index_eq_flatten_partial shows index != flatten: "+op)
-	}
 	if sc.Tame && !tame {
 		r.Count("e2e:generator-tame-but-not-Tame:" + tameClause(s, layers))
 	}
+	return tame
 }
